@@ -174,11 +174,12 @@ def progress_blocks(F, b, h, nodes, strict_fns=(), adt=None):
                             out.add(x)
                             desc.append(f"L{bl['s'][si][3]}: window = &window[..{show(rb[2])[:30]}]  (behind len(window) > n)")
                             continue
-            # rest component of a strictly consuming parser (possibly through `?`)
+            # rest component of a strictly consuming parser (possibly through `?`): progress only when it is stored into the
+            # variable the parser is fed from (`let (next, x) = parse(cur)?` alone does not advance `cur`)
             if X is not None or rv[0] == 'use':
                 o = og.rvalue(b, rv, x, si, 0, None)
                 hit = [l[2:] for l in leafs(o) if l.startswith('C:') and l[2:] in strict_fns]
-                if hit and _is_slice_ty(b, s[1]):
+                if hit and _is_slice_ty(b, s[1]) and (s[1][1] or s[1][0] in _cursor_locals(b, nodes, strict_fns)):
                     out.add(x)
                     desc.append(f"L{bl['s'][si][3]}: cursor = rest returned by {hit[0].split('::')[-2]}::{hit[0].split('::')[-1]}")
                     continue
@@ -393,3 +394,37 @@ def _get_guard_for(F, b, x):
         if not still:
             return f"[n..] with n = end of get({a}..n)? (n >= {a})"
     return None
+
+
+def _cursor_locals(b, nodes, strict_fns):
+    """user locals whose value is handed (as first argument, possibly through reborrows / copies) to a strictly consuming
+    parser inside the loop"""
+    key = ('_cursor_locals', id(b), tuple(sorted(nodes)))
+    cache = b.__dict__.setdefault('_cl_cache', {})
+    if key in cache:
+        return cache[key]
+    out = set()
+
+    def root(l, depth=0):
+        if depth > 6:
+            return
+        if b.locals[l].get('name'):
+            out.add(l)
+            return
+        ds = [d for d in b._all_defs().get(l, []) if d[3] == []]
+        for d in ds:
+            if d[2] != 'a':
+                continue
+            rv = d[4]
+            if rv[0] == 'ref':
+                root(rv[2][0], depth + 1)
+            elif rv[0] == 'use' and is_place_op(rv[1]):
+                root(rv[1][1][0], depth + 1)
+            elif rv[0] == 'cast' and is_place_op(rv[2]):
+                root(rv[2][1][0], depth + 1)
+    for x in nodes:
+        t = b.blocks[x]['t']
+        if t[0] == 'call' and t[2] and (b.callee_name(t[1]) or '') in strict_fns and is_place_op(t[2][0]):
+            root(t[2][0][1][0])
+    cache[key] = out
+    return out
